@@ -102,7 +102,7 @@ theorem MovedAt.trans {h1 h2 h3 : Heap} {b i : Nat} (a : MovedAt h1 h2 b i) (c :
 
 theorem MovedAt.of_upd {h h' : Heap} {b i : Nat} {c : Cell} (hc : h.cell? b i = some c)
     (up : Upd h h' b i { c with st := .moved }) : MovedAt h h' b i :=
-  ⟨up.count, fun j => up.wordAt_same hc rfl b j, fun j hj => up.stAt_ne (fun hh => hj hh.2), Or.inr up.stAt_eq⟩
+  ⟨up.count, fun j => up.wordAt_same hc rfl b j, fun _ hj => up.stAt_ne (fun hh => hj hh.2), Or.inr up.stAt_eq⟩
 
 def srcBlk : KeySrc → List Nat
   | .moveOf b _ => [b]
